@@ -265,4 +265,77 @@ instance (t : List Desc) : Decidable (WFbitmap t) := by unfold WFbitmap; infer_i
 /-- templates without 235000 (first stage of C07_links_eq_spec) -/
 def no235 (t : List Desc) : Bool := !(flatIds t).contains 235000
 
+/-! ### the templates and items for which `links = Spec.links` is PROVED (Props/C07Spec.lean)
+
+  `WFlinks t` is the structural form of `WFbitmap`: the same three clauses, but read on the template TREE
+  (member lists) instead of the pre-order id list, so that it can be carried through the recursion of the
+  walk: a bit-map operator and its definition (`237000`, or an optional `236000` and the replication of
+  `031031`) are consecutive members of the SAME member list. -/
+
+/-- a replication whose only member is the element 031031 (its factor, when delayed, is another element) -/
+def isBitRep : Desc → Bool
+  | .fixedRep id [.elem e] => e.id == 31031 && id != 31031 && id != 237000
+  | .delayedRep id (.elem f) [.elem e] => e.id == 31031 && f.id != 31031 && id != 31031 && id != 237000
+  | _ => false
+
+/-- where a member list stands: anywhere, directly behind `22X000` / `232000`, directly behind `236000` -/
+inductive WPh where
+  | idle | afterOp | after236
+  deriving DecidableEq, Repr
+
+/-- operators allowed outside a bit-map definition -/
+def okIdleOp (id : Nat) : Bool := id != 236000 && id != 237000 && id != 31031 && !hidesMembers id
+
+mutual
+/-- a member outside a bit-map definition (bit-map operators themselves are looked at by `wfL`) -/
+def wfD : Desc → Bool
+  | .elem e => e.id != 31031
+  | .undefElem _ => false
+  | .undefSeq _ => false
+  | .fixedRep id ms => id != 31031 && wfL .idle ms
+  | .delayedRep id f ms =>
+    id != 31031 && (match f with | .elem fe => fe.id != 31031 | _ => false) && wfL .idle ms
+  | .op id => okIdleOp id && !isBitmapOpId id
+  | .seq id ms => id != 31031 && wfL .idle ms
+/-- a member list, read from the phase `ph`; it must end outside a bit-map definition -/
+def wfL : WPh → List Desc → Bool
+  | ph, [] => ph == .idle
+  | .idle, d :: ds =>
+    (match d with
+     | .op id => if isBitmapOpId id then wfL .afterOp ds else wfD d && wfL .idle ds
+     | _ => wfD d && wfL .idle ds)
+  | .afterOp, d :: ds =>
+    (match d with
+     | .op id => if id = 237000 then wfL .idle ds else if id = 236000 then wfL .after236 ds else false
+     | _ => isBitRep d && wfL .idle ds)
+  | .after236, d :: ds => isBitRep d && wfL .idle ds
+end
+
+/-- Well-formed use of the bit-map operators, on the template tree:
+    * every `22X000` / `232000` is directly followed, in the same member list, by `237000`, or by an optional
+      `236000` and a replication of the single element `031031`;
+    * `031031`, `236000`, `237000` occur nowhere else;
+    * no `203YYY` definition, `206YYY`, `221YYY`; no descriptor missing from the tables. -/
+def WFlinks (t : List Desc) : Prop := wfL .idle t = true
+
+instance (t : List Desc) : Decidable (WFlinks t) := by unfold WFlinks; infer_instance
+
+/-- The two classes of items in which the code is known to deviate from FM 94 (open findings), read off the
+    item list: no marker value
+    * stands for a class 33 element inside a quality-information stretch (F-C07-marker-class33: the code takes
+      TWO zero bits for it), nor
+    * is preceded by the associated field of its own element (F11-C07-links-marker: with 204YYY in force the
+      code keys the link by the position of that field instead of the marker value). -/
+def markersOk (its : List Item) : Bool :=
+  (List.range its.length).all fun i =>
+    match its[i]? with
+    | some (.marker _ e, _) =>
+      !(xOf e.id == 33 && inQa its i) &&
+      !(match i with
+        | 0 => false
+        | j + 1 => (match its[j]? with
+          | some (.assoc id _, _) => id == e.id
+          | _ => false))
+    | _ => true
+
 end Bufr.Spec
